@@ -151,6 +151,42 @@ def action_coverage(r):
 MODEL_ACTIONS = ["AddOp", "Merge", "VerifiedMerge", "VerifiedMergeCrafted", "Verify", "Read"]
 
 
+def validate_one(trace_path, work, timeout=3000):
+    """Run RegisterTrace over one trace file. The specification appends its findings to IOEnv.OUT as
+    it goes (TLA+ string literals holding JSON) and ends with a summary line."""
+    out_path = os.path.join(work, "verdict.txt")
+    if os.path.exists(out_path):
+        os.remove(out_path)
+    r = tlc("register", "RegisterTrace", "RegisterTrace.cfg", work, env={"TRACE": trace_path, "OUT": out_path},
+            workers=1, dfs=True, coverage=False, timeout=timeout, heap="6g")
+    if r.violated:
+        raise ToolError("trace specification reported %s (it must never fail):\n%s" % (r.violated, r.error_text[:3000]))
+    if not os.path.exists(out_path):
+        raise ToolError("trace specification wrote no report for %s\n%s" % (trace_path, r.output[-3000:]))
+    rep = {"violations": [], "drift": [], "ntruns": [], "lines": None, "stat": {}}
+    with open(out_path) as f:
+        for ln in f:
+            ln = ln.strip()
+            if not ln:
+                continue
+            x = json.loads(json.loads(ln))
+            if x["k"] == "viol":
+                rep["violations"].append({"clause": x["clause"], "line": x["line"], "f": x["f"]})
+            elif x["k"] == "drift":
+                rep["drift"].append({"what": x["what"], "line": x["line"]})
+            elif x["k"] == "nt":
+                rep["ntruns"].append(x["run"])
+            elif x["k"] == "end":
+                rep["lines"], rep["stat"] = x["lines"], x["stat"]
+                if x["nviol"] != len(rep["violations"]) or x["ndrift"] != len(rep["drift"]):
+                    raise ToolError("trace specification report is inconsistent: %s violations counted, %s written"
+                                    % (x["nviol"], len(rep["violations"])))
+    n = sum(1 for ln in open(trace_path) if ln.strip())
+    if rep["lines"] != n:
+        raise ToolError("trace specification consumed %s of %s lines of %s" % (rep["lines"], n, trace_path))
+    return rep
+
+
 def validate_chunks(trace, w, jobs=4):
     """Split the trace at scenario boundaries and validate the chunks in parallel JVMs; line numbers of
     the reports are mapped back to the whole trace."""
@@ -177,7 +213,7 @@ def validate_chunks(trace, w, jobs=4):
         p, off = a
         d = os.path.join(w, "val-" + os.path.basename(p))
         os.makedirs(d, exist_ok=True)
-        rep = validate_trace("register", "RegisterTrace", "RegisterTrace.cfg", p, d, timeout=3000)
+        rep = validate_one(p, d)
         for x in rep["violations"] + rep["drift"]:
             x["line"] += off
         return rep
@@ -221,6 +257,8 @@ def run(prop, tier, replay=None):
     def phase(name):
         phases[name] = round(time.time() - t_ph[0], 1)
         t_ph[0] = time.time()
+        if thorough:
+            log("%s   %s done in %.0fs" % (prop, name, phases[name]))
     if replay:
         scs = [replay["scenario"]]
     else:
@@ -266,13 +304,13 @@ def run(prop, tier, replay=None):
         phase("tlc_simulate")
         tlc_scs, limit = load_tlc_scenarios(scn_txt, pool_file)
         n_generated = len(tlc_scs)
-        chosen = select(tlc_scs, rnd, *((12000, 2500, 60) if thorough else (1100, 160, 4)))
+        chosen = select(tlc_scs, rnd, *((12000, 1800, 60) if thorough else (1100, 160, 4)))
         scs = [finalise(s) for s in cex + chosen]
         # 3. seeded random histories (data only; generated by the driver binary without touching the code under test)
         build(PACKAGES)
         phase("build")
         rnd_file = os.path.join(w, "random.ndjson")
-        n_rand, n_limit, n_heavy = (1500, 300, 24) if thorough else (70, 16, 1)
+        n_rand, n_limit, n_heavy = (1200, 240, 20) if thorough else (70, 16, 1)
         run_driver("drv_register", ["--gen", n_rand, "--limit-runs", n_limit, "--heavy-runs", n_heavy, "--out", rnd_file], w)
         scs += read_ndjson(rnd_file)
         for i, s in enumerate(scs):
@@ -284,7 +322,7 @@ def run(prop, tier, replay=None):
     p = run_driver("drv_register", ["--run", scen_file, "--out", trace, "--threads", 8], w, timeout=6000)
     phase("driver")
     # 5. TLC as the oracle over the recorded calls
-    rep = validate_chunks(trace, w, jobs=1 if replay else (6 if thorough else 4))
+    rep = validate_chunks(trace, w, jobs=1 if replay else (8 if thorough else 4))
     phase("trace_validation")
     events = read_ndjson(trace)
     if rep["lines"] != len(events):
